@@ -24,6 +24,7 @@ import (
 	protoCommonV1 "github.com/lindb/lindb/proto/gen/v1/common"
 	"github.com/lindb/lindb/query"
 	queryctx "github.com/lindb/lindb/query/context"
+	trackerpkg "github.com/lindb/lindb/query/tracker"
 )
 
 // tierChooser: what a broker's state manager answers for Choose / GetDatabaseCfg.
@@ -131,6 +132,10 @@ type TierResult struct {
 	ReceiveOnly  []string // intermediate nodes that were only receivers
 	DroppedResps int      // leaf responses addressed to a node that has no task for the request
 	InterErr     string   // error message of the compute node's response
+	// InterStuck: the compute node had every leaf response and still waited (released by cancelling its context,
+	// which is what its timeout does in production); InterDelivered = responses handed to it before it was done.
+	InterStuck     bool
+	InterDelivered int
 }
 
 var tierSeq int64
@@ -205,6 +210,8 @@ func (c *Cluster) QueryViaIntermediates(q string, tr timeutil.TimeRange, leaves 
 	}
 	inters = planned
 	nInter = len(planned)
+	computeCtx, computeCancel := context.WithCancel(ctx)
+	defer computeCancel()
 	// every intermediate node gets its request
 	tasks := map[string]*nodeTasks{}
 	upStreams := map[string]*stream{}
@@ -223,8 +230,12 @@ func (c *Cluster) QueryViaIntermediates(q string, tr timeutil.TimeRange, leaves 
 		ind := n.Indicator()
 		proc := query.NewIntermediateTaskProcessor(n, 60*time.Second,
 			&tierChooser{db: c.DBName, opt: c.Opt, inters: inters, leaves: leaves}, tasks[ind], leafTM)
+		nctx := ctx
+		if ind == res.Compute {
+			nctx = computeCtx
+		}
 		go func(ind string, up *stream, r *protoCommonV1.TaskRequest) {
-			tctx := flow.NewTaskContextWithTimeout(ctx, 60*time.Second)
+			tctx := flow.NewTaskContextWithTimeout(nctx, 60*time.Second)
 			procDone <- procOut{ind, proc.Process(tctx, up, r)}
 		}(ind, upStreams[ind], rootTM.reqs[ind])
 	}
@@ -336,10 +347,26 @@ func (c *Cluster) QueryViaIntermediates(q string, tr timeutil.TimeRange, leaves 
 				order = append(order, i)
 			}
 		}
+		// The compute node's goroutine is blocked in WaitResponse and its send pipeline has completed (waited for
+		// above), so nobody touches the context's stage tracker now: swap in our own. tryClose calls
+		// stageTracker.Complete() exactly when it closes doneCh, which makes "the context is done" observable
+		// without a clock. Once done, the node's goroutine builds its answer: further responses would race with
+		// it (as in production), so delivery stops there.
+		itracker := trackerpkg.NewStageTracker(flow.NewTaskContextWithTimeout(ctx, 60*time.Second))
+		ictx.SetTracker(itracker)
 		for _, i := range order {
 			if i < len(mine) {
 				ictx.HandleResponse(mine[i].resp, mine[i].from)
+				res.InterDelivered++
+				if itracker.GetStats() != nil {
+					break
+				}
 			}
+		}
+		if itracker.GetStats() == nil {
+			// every response delivered, still waiting: in production until the query timeout. Release it now.
+			res.InterStuck = true
+			computeCancel()
 		}
 	}
 	// the compute node finishes (answer or error or its own timeout)
